@@ -22,6 +22,9 @@ import Sqljson.Props.C14
 * `index_list_strict_oob(_next)`: the first offending subscript is the `k`-th: the result is
   `returnError … .verbose` (the out-of-bounds error, `none` when `verbose = false`) and the elements
   of the first `k-1` subscripts are **already appended** to the result list;
+* `index_list_bad_subscript(_next)`: a bound that does not evaluate to a single int32 number
+  (`Aux.BadBound`; e.g. a literal outside int32, `Aux.err_literal`) is the error in both modes, again
+  with the elements of the preceding subscripts already appended;
 * `index_list_lax_type`: a concrete next node (`a[…].type()`), showing `Aux.PureNext` is inhabited by
   more than the empty chain;
 * `query_lax`, `query_strict_ok`, `query_strict_oob`: `Api.queryWith` on `$[…]` with literal / `last`
@@ -390,6 +393,86 @@ theorem index_list_lax_non_array (c : Ctx) (item : ItemK) (s : St) (v : Item) (l
     execArrayIndex c item s (es.map (·.1)) none v (some l) =
       ⟨s, some (l ++ selected [v] (es.map (·.2))), statusOf (selected [v] (es.map (·.2))), none⟩ :=
   index_list_lax c item s v [v] l (C14.lax_wrap c v hlax hv) hb hig es hB
+
+/-! ### a subscript that is not a single int32 number: the error in both modes -/
+
+namespace Aux
+
+/-- the bound expression `nd` fails with `e` (state untouched) -/
+def ErrIdx (c : Ctx) (item : ItemK) (v : Item) (n : Nat) (nd : Node) (e : Err) : Prop :=
+  ∀ s1 : St, s1.innermost = n → s1.budget = none → getArrayIndex c item s1 nd v = (s1, .error e)
+
+/-- one of the bounds of `sub` fails with `e` -/
+inductive BadBound (c : Ctx) (item : ItemK) (v : Item) (n : Nat) : Node → Err → Prop
+  | first (l : Node) (r nx : Option Node) (e : Err) :
+      ErrIdx c item v n l e → BadBound c item v n (.binary .subscript (some l) r nx) e
+  | second (l r : Node) (nx : Option Node) (a : Int) (e : Err) :
+      PureIdx c item v n l a → ErrIdx c item v n r e →
+      BadBound c item v n (.binary .subscript (some l) (some r) nx) e
+
+/-- a literal outside int32 is the suppressible subscript error -/
+theorem err_literal (c : Ctx) (fuel : Nat) (v : Item) (n : Nat) (i : Int) (hi : inInt32 i = false) :
+    ErrIdx c (xItem c (fuel + 1)) v n (.integer i none) .verbose :=
+  fun s1 _ hb => C14.index_range c fuel s1 i v hb hi
+
+theorem execSubscript_bad (c : Ctx) (item : ItemK) (v : Item) (n : Nat) (sub : Node) (e : Err)
+    (hB : BadBound c item v n sub e) (s1 : St) (hin : s1.innermost = n) (hb : s1.budget = none) (size : Int) :
+    execSubscript c item s1 sub v size = (s1, .error e) := by
+  cases hB with
+  | first l r nx e hl =>
+    unfold execSubscript
+    simp only [hl s1 hin hb]
+  | second l r nx a e hl hr =>
+    unfold execSubscript
+    simp only [hl s1 hin hb, hr s1 hin hb]
+
+theorem sub_step_bad (c : Ctx) (item : ItemK) (s0 : St) (nx : Option Node) (xs : List Item) (v : Item)
+    (hin : s0.innermost = xs.length) (hb : s0.budget = none)
+    (sub : Node) (e : Err) (hB : BadBound c item v xs.length sub e) (f : List Item) (res : Status) :
+    indexSubStep c item nx xs v (mid s0 f res) sub =
+      ⟨s0, some f, res, none, some (returnError s0 (some f) e)⟩ := by
+  unfold indexSubStep
+  rw [show (mid s0 f res).st = s0 from rfl, execSubscript_bad c item v xs.length sub e hB s0 hin hb]
+  simp [mid]
+
+end Aux
+
+/-- **a bad subscript, lax or strict**: the subscripts `pre` are acceptable (lax, or within bounds),
+    a bound of the next subscript `sub` fails with `e` (not a single number, outside int32: `e` is
+    the suppressible `.verbose`): the result is `returnError … e` with the elements selected by
+    `pre` already appended; `post` is never evaluated -/
+theorem index_list_bad_subscript_next (c : Ctx) (item : ItemK) (s : St) (nx : Option Node) (v : Item)
+    (xs l : List Item) (k : Item → List Item) (st : Item → Status)
+    (hxs : arrayOf c v = some xs) (hb : s.budget = none)
+    (hk : PureNext c item { s with innermost := xs.length } nx k st)
+    (pre : List Evald) (hB : ∀ e ∈ pre, Bound c item v xs.length e.1 e.2.1 e.2.2)
+    (hpre : ∀ e ∈ pre, s.ignoreSE = true ∨ inBounds xs.length e.2 = true)
+    (sub : Node) (e : Err) (hsub : BadBound c item v xs.length sub e) (post : List Node) :
+    execArrayIndex c item s (pre.map (·.1) ++ sub :: post) nx v (some l) =
+      returnError s (some (l ++ ((pre.map (·.2)).flatMap (sel xs)).flatMap k)) e := by
+  unfold execArrayIndex
+  simp only [hxs, List.foldl_append, List.foldl_cons]
+  have h1 := sub_fold_ok c item { s with innermost := xs.length } nx k st hk xs v rfl hb pre hB hpre l .notFound
+  simp only [mid] at h1
+  rw [h1]
+  have h2 := sub_step_bad c item { s with innermost := xs.length } nx xs v rfl hb sub e hsub
+    (l ++ ((pre.map (·.2)).flatMap (sel xs)).flatMap k)
+    (lastStatus st .notFound ((pre.map (·.2)).flatMap (sel xs)))
+  simp only [mid] at h2
+  rw [h2, sub_fold_ret _ _ _ _ _ _ _ rfl]
+  exact returnError_restore s xs.length _ _
+
+theorem index_list_bad_subscript (c : Ctx) (item : ItemK) (s : St) (v : Item) (xs l : List Item)
+    (hxs : arrayOf c v = some xs) (hb : s.budget = none)
+    (pre : List Evald) (hB : ∀ e ∈ pre, Bound c item v xs.length e.1 e.2.1 e.2.2)
+    (hpre : ∀ e ∈ pre, s.ignoreSE = true ∨ inBounds xs.length e.2 = true)
+    (sub : Node) (e : Err) (hsub : BadBound c item v xs.length sub e) (post : List Node) :
+    execArrayIndex c item s (pre.map (·.1) ++ sub :: post) none v (some l) =
+      returnError s (some (l ++ selected xs (pre.map (·.2)))) e := by
+  rw [index_list_bad_subscript_next c item s none v xs l _ _ hxs hb (pureNext_none c item _) pre hB hpre
+    sub e hsub post, flatMap_single]
+  rfl
+
 
 /-! ### a concrete next node -/
 
